@@ -5,7 +5,7 @@ from vf.xh import Ob
 PREAMBLE = '''\
 import sys
 from vf import skel as _sk
-from checks.C37 import stream_ok, N
+from checks.C37 import stream_ok, nested_ok, N
 '''
 
 RMOD_SRC = '''
@@ -129,8 +129,77 @@ def finding_key(ob, rec):
     return "%s" % (rec.get("replay_detail"),)
 
 
+# Modules on disk, where compiling one module starts the compilation of another in the middle (require of a module without
+# cached bytecode): (files, module to import, expected: value of `got` | ("error", class))
+NESTED = [
+    ({"inner": "(defreader twice (setv form (.parse-one-form &reader)) `[~form ~form])\n(setv value #twice 21)\n(defmacro noop [] None)\n",
+      "outer": "(defreader mine '\"outer\")\n(require {inner} [noop])\n(import {inner})\n(setv got [#mine {inner}.value])\n"}, ["outer", [21, 21]]),
+    ({"inner": "(defreader secret '\"leaked\")\n(defmacro noop [] None)\n",
+      "outer": "(require {inner} [noop])\n(setv got #secret)\n"}, ("error", "LexException")),
+    ({"inner": "(defreader secret '\"wanted\")\n(defmacro noop [] None)\n",
+      "outer": "(require {inner} [noop] {inner} :readers [secret])\n(setv got #secret)\n"}, "wanted"),
+    ({"inner": "(defreader tag '\"inner\")\n(setv value #tag)\n(defmacro noop [] None)\n",
+      "outer": "(defreader tag '\"outer\")\n(setv a #tag)\n(require {inner} [noop])\n(import {inner})\n(setv got [a #tag {inner}.value])\n"}, ["outer", "outer", "inner"]),
+]
+_NESTED_COUNTER = [0]
+
+
+def _nested(i):
+    import importlib
+    import os
+    import shutil
+    import sys
+    import tempfile
+
+    import hy  # noqa
+
+    files, want = NESTED[i]
+    _NESTED_COUNTER[0] += 1
+    tag = "vfn37_%d_%d_%d" % (os.getpid(), i, _NESTED_COUNTER[0])
+    names = {k: "%s_%s" % (tag, k) for k in files}
+    d = tempfile.mkdtemp(prefix="vf-c37-")
+    try:
+        for k, text in files.items():
+            with open(os.path.join(d, names[k] + ".hy"), "w") as f:
+                f.write(text.replace("{inner}", names.get("inner", "")))
+        sys.path.insert(0, d)
+        try:
+            try:
+                m = importlib.import_module(names["outer"])
+                got = m.got
+            except Exception as e:
+                got = ("error", type(e).__name__)
+        finally:
+            sys.path.remove(d)
+            for n in names.values():
+                sys.modules.pop(n, None)
+    finally:
+        shutil.rmtree(d, ignore_errors=True)
+    if isinstance(want, tuple):
+        ok = type(got) is tuple and got[0] == "error" and got[1] in ("LexException", "HySyntaxError", "PrematureEndOfInput")
+    else:
+        ok = type(got) is not tuple and got == want
+    if not ok:
+        return "modules %r: importing the outer one gives %r, expected %r" % (files, got, want)
+    return None
+
+
+def nested_ok(i, why=None):
+    from vf import skel
+
+    if why is None and skel.EXPLAIN[0]:
+        del skel.LAST_WHY[:]
+        why = skel.LAST_WHY
+    r = strsym.untraced(_nested, i)
+    if r is not None and why is not None:
+        why.append(r)
+    return r is None
+
+
 def spec(tier, seed):
     obs = []
+    L = ["def hnested(i: int) -> bool:", '    """', "    post: _", '    """', "    return nested_ok(_sk.box(i, 0, %d))" % (len(NESTED) - 1)]
+    obs.append(Ob("hnested", "\n".join(L), sample="modules on disk compiled in a nested way: %r" % ([n[0] for n in NESTED],), group="nested-compile"))
     chunk = 5
     for c0 in range(0, N, chunk):
         n = min(chunk, N - c0)
@@ -145,7 +214,7 @@ def spec(tier, seed):
                                             "hy.reader.read_many laziness (forms are read only after the previous one was evaluated)"],
         "bounds": "%d source streams mixing top-level defreader, uses, redefinition, reader macros returning None, reader macros with side effects on the stream, require :readers with name lists "
                   "and *, use before definition / require, non-top-level definitions, nested evaluation with a fresh or the current reader; after each stream an unrelated module and a fresh "
-                  "reader must not see the macros" % N,
+                  "reader must not see the macros; %d pairs of modules on disk where the compilation of one starts the compilation of the other" % (N, len(NESTED)),
         "outside": "random longer streams over more modules", "stubs": ["runs executed under crosshair.tracers.NoTracing"], "assumptions": ["expected outcomes written by hand from docs/macros.rst"],
     }
 
